@@ -168,6 +168,7 @@ class TraceResult:
     def __init__(self):
         self.fails = []           # dicts: id, k, line, rule, info, shard
         self.cover = collections.Counter()
+        self.cover_runs = collections.defaultdict(set)   # tag -> runs (case id, solve) that carry it
         self.runs = 0             # begin lines seen by TLC
         self.profiles = collections.Counter()
         self.states = 0
@@ -234,6 +235,7 @@ def run_and_validate(exe, case_files, tag, jobs=12, timeout_ms=30000, module="Tr
             for (_i, _k, tags) in covers:
                 for tg in tags:
                     res.cover[tg] += 1
+                    res.cover_runs[tg].add((_i, _k))
             res.runs += len(begins)
             for (_i, _k, prof) in begins:
                 res.profiles[prof] += 1
